@@ -9,9 +9,12 @@ Section DapStepProofs.
 
   Notation finT := (finT opT).
   Notation over_loop := (over_loop pcT opT).
-  Notation out_loop := (out_loop pcT opT).
+  Notation out_loop := (out_loop opT).
+  Notation out_loop_pinned := (out_loop_pinned pcT opT).
+  Notation step_out_pinned := (step_out_pinned pcT spT opT retT).
+  Notation depthZ := (depthZ opT).
   Notation step_over := (step_over pcT opT).
-  Notation step_out := (step_out pcT spT opT retT).
+  Notation step_out := (step_out spT opT).
   Notation exec_in := (exec_in opT).
 
   (* every step command leaves the machine on the uninterrupted run, at or after where it started *)
@@ -26,12 +29,14 @@ Section DapStepProofs.
       + apply IHfuel in H. lia.
   Qed.
 
-  Lemma out_loop_forward : forall fuel t i j, out_loop fuel t i = Some j -> i <= j.
+  Lemma out_loop_forward : forall fuel n i j, out_loop fuel n i = Some j -> i <= j.
   Proof.
-    induction fuel; simpl; intros t i j H; try discriminate.
-    destruct (pcT i =? t). { inversion H; lia. }
+    induction fuel; simpl; intros n i j H; try discriminate.
     destruct (finT i). { inversion H; lia. }
-    apply IHfuel in H. lia.
+    destruct (is_jsr opT i). { apply IHfuel in H; lia. }
+    destruct (is_rts opT i).
+    - destruct (n =? 0). { inversion H; lia. } apply IHfuel in H; lia.
+    - apply IHfuel in H; lia.
   Qed.
 
   Theorem step_forward : forall fuel i j,
@@ -71,11 +76,11 @@ Section DapStepProofs.
       + intros k Hk. apply Hfin. lia.
   Qed.
 
-  Lemma out_loop_hit : forall d fuel i t,
+  Lemma out_loop_pinned_hit : forall d fuel i t,
     (S d <= fuel)%nat ->
     pcT (i + Z.of_nat d) = t ->
     (forall k, i <= k < i + Z.of_nat d -> pcT k <> t /\ finT k = false) ->
-    out_loop fuel t i = Some (i + Z.of_nat d).
+    out_loop_pinned fuel t i = Some (i + Z.of_nat d).
   Proof.
     induction d; intros fuel i t Hf Hp Hn.
     - destruct fuel; [lia|]. change (Z.of_nat 0) with 0 in *. rewrite Z.add_0_r in *. simpl.
@@ -115,9 +120,9 @@ Section DapStepProofs.
   Theorem next_plain : forall fuel i, is_jsr opT i = false -> step_over fuel i = Some (exec_in i).
   Proof. intros. unfold DapStep.step_over. rewrite H. reflexivity. Qed.
 
-  (* `stepOut` with a clean stack (the two bytes above the stack pointer are the frame's return address) runs to the
-     instruction after the call *)
-  Theorem stepout_clean : forall fuel c i j,
+  (* the pinned `stepOut` with a clean stack (the two bytes above the stack pointer are the frame's return address) ran
+     to the instruction after the call *)
+  Theorem stepout_pinned_clean : forall fuel c i j,
     returns_to_caller ->
     frame_call opT c i -> returns_at opT c j -> i <= j ->
     Known_stepout_stack_dirty pcT retT c i = false ->
@@ -125,18 +130,95 @@ Section DapStepProofs.
     (forall k, i <= k < j -> pcT k <> pcT c + 3) ->        (* no recursion through the call site *)
     (forall k, i <= k < j -> finT k = false) ->
     (S (Z.to_nat (j - i)) <= fuel)%nat ->
-    step_out fuel i = Some j.
+    step_out_pinned fuel i = Some j.
   Proof.
     intros fuel c i j HR Hfc Hret Hij Hclean Hsp Hn Hfin Hfuel.
     pose proof (HR c j Hret) as Hp.
-    unfold DapStep.step_out.
+    unfold DapStep.step_out_pinned.
     assert (spT i >? 253 = false) by (rewrite Z.gtb_ltb; apply Z.ltb_ge; lia).
     unfold Known_stepout_stack_dirty in Hclean. apply Bool.negb_false_iff, Z.eqb_eq in Hclean.
     rewrite H, Hclean.
     remember (Z.to_nat (j - i)) as d.
     assert (j = i + Z.of_nat d) by lia. subst j.
-    apply out_loop_hit; auto.
+    apply out_loop_pinned_hit; auto.
   Qed.
+
+  (* ---- the repaired step_out: call depth *)
+  Definition delta (k : Z) : Z := if opT k =? 32 then 1 else if opT k =? 96 then -1 else 0.
+
+  Lemma depthZ_succ : forall k, 0 <= k -> depthZ (k + 1) = depthZ k + delta k.
+  Proof.
+    intros k Hk. unfold DapStepSpec.depthZ, delta.
+    replace (Z.to_nat (k + 1)) with (S (Z.to_nat k)) by lia.
+    simpl. rewrite Z2Nat.id by lia. reflexivity.
+  Qed.
+
+  Lemma out_loop_depth : forall d fuel i j k nested,
+    0 <= i <= k -> k + Z.of_nat (S d) = j ->
+    nested = depthZ k - depthZ i -> 0 <= nested ->
+    depthZ j = depthZ i - 1 ->
+    (forall m, i < m < j -> depthZ m >= depthZ i) ->
+    (forall m, i <= m < j -> finT m = false) ->
+    (S d <= fuel)%nat ->
+    out_loop fuel nested k = Some j.
+  Proof.
+    induction d; intros fuel i j k nested Hik Hj Hn Hn0 Hdj Hge Hfin Hfuel;
+      (destruct fuel; [lia|]); simpl; rewrite (Hfin k) by lia;
+      pose proof (depthZ_succ k ltac:(lia)) as HS; unfold delta in HS;
+      unfold is_jsr, is_rts.
+    - (* k + 1 = j *)
+      assert (Ej : j = k + 1) by lia. clear Hj. subst j.
+      destruct (opT k =? 32) eqn:E1; rewrite ?E1 in HS; [lia|].
+      destruct (opT k =? 96) eqn:E2; rewrite ?E2 in HS; [|lia].
+      destruct (nested =? 0) eqn:E0; [reflexivity|]. apply Z.eqb_neq in E0. lia.
+    - assert (k + 1 < j) by lia.
+      assert (depthZ (k + 1) >= depthZ i) by (apply Hge; lia).
+      destruct (opT k =? 32) eqn:E1; rewrite ?E1 in HS.
+      + apply (IHd fuel i j (k + 1) (nested + 1)); auto; lia.
+      + destruct (opT k =? 96) eqn:E2; rewrite ?E2 in HS.
+        * destruct (nested =? 0) eqn:E0. { apply Z.eqb_eq in E0. lia. }
+          apply Z.eqb_neq in E0.
+          apply (IHd fuel i j (k + 1) (nested - 1)); auto; lia.
+        * apply (IHd fuel i j (k + 1) nested); auto; lia.
+  Qed.
+
+  (* `stepOut` lands on the first later index whose call depth is below the current one: where the subroutine the
+     machine is in has just returned -- whatever it pushed, however it recursed *)
+  Theorem stepout_returns : forall fuel i j,
+    0 <= i < j -> spT i <= 253 ->
+    depthZ j = depthZ i - 1 ->
+    (forall m, i < m < j -> depthZ m >= depthZ i) ->
+    (forall m, i <= m < j -> finT m = false) ->
+    (Z.to_nat (j - i) <= fuel)%nat ->
+    step_out fuel i = Some j.
+  Proof.
+    intros fuel i j Hij Hsp Hdj Hge Hfin Hfuel.
+    unfold DapStep.step_out.
+    assert (spT i >? 253 = false) by (rewrite Z.gtb_ltb; apply Z.ltb_ge; lia).
+    rewrite H.
+    apply (out_loop_depth (Z.to_nat (j - i - 1)) fuel i j i 0); auto; lia.
+  Qed.
+
+  (* in terms of the frame: c is the call of i's frame and returns at j *)
+  Theorem stepout_after_call : forall fuel c i j,
+    frame_call opT c i -> returns_at opT c j -> spT i <= 253 ->
+    (forall m, i <= m < j -> finT m = false) ->
+    (Z.to_nat (j - i) <= fuel)%nat ->
+    i < j /\ step_out fuel i = Some j /\ (returns_to_caller -> pcT j = pcT c + 3).
+  Proof.
+    intros fuel c i j [Hci [Hop [Hd Hin]]] Hret Hsp Hfin Hfuel.
+    pose proof Hret as [[Hc0 Hcj] [_ [Hdj Hbetween]]].
+    assert (i < j).
+    { destruct (Z_lt_le_dec i j); auto. exfalso.
+      assert (j = i \/ c < j < i) as [E|E] by lia.
+      - subst. lia.
+      - assert (depthZ j > depthZ c) by (apply Hin; lia). lia. }
+    split; auto. split.
+    - apply stepout_returns; auto; try lia.
+      intros m Hm. assert (depthZ m > depthZ c) by (apply Hbetween; lia). lia.
+    - intro HR. apply HR; auto.
+  Qed.
+
 End DapStepProofs.
 
 (* ---- the witness of F-C19b: corpus/C19/stepout_after_pha.asm
@@ -147,11 +229,13 @@ Definition w_sp := nthZ [253; 253; 253; 251; 250; 250; 251; 253; 253].
 Definition w_op := nthZ [162; 169; 32; 72; 234; 104; 96; 232; 0].
 Definition w_ret := nthZ [1; 1; 1; 49159; 1544; 1544; 49159; 1; 1].
 
-(* stopped on `nop` (index 4, after the pha): the call at index 2 returns at index 7 (`inx`), stepOut runs to the brk *)
+(* stopped on `nop` (index 4, after the pha): the call at index 2 returns at index 7 (`inx`); the pinned stepOut ran to
+   the brk, the repaired one lands on index 7 *)
 Theorem stepout_dirty_refuted :
   frame_call w_op 2 4 /\ returns_at w_op 2 7 /\ w_pc 7 = w_pc 2 + 3 /\
   Known_stepout_stack_dirty w_pc w_ret 2 4 = true /\
-  step_out w_pc w_sp w_op w_ret 100 4 = Some 8.
+  step_out_pinned w_pc w_sp w_op w_ret 100 4 = Some 8 /\
+  step_out w_sp w_op 100 4 = Some 7.
 Proof.
   assert (D : forall k, 2 < k < 7 -> depthZ w_op k > depthZ w_op 2).
   { intros k Hk. assert (k = 3 \/ k = 4 \/ k = 5 \/ k = 6) as [E|[E|[E|E]]] by lia; subst; vm_compute; reflexivity. }
@@ -161,5 +245,6 @@ Proof.
 Qed.
 
 (* ... while on `pha` itself (index 3, nothing pushed yet) it lands after the call *)
-Example stepout_clean_witness : step_out w_pc w_sp w_op w_ret 100 3 = Some 7 /\ step_over w_pc w_op 100 2 = Some 7.
-Proof. vm_compute. split; reflexivity. Qed.
+Example stepout_clean_witness : step_out_pinned w_pc w_sp w_op w_ret 100 3 = Some 7 /\ step_out w_sp w_op 100 3 = Some 7 /\
+  step_over w_pc w_op 100 2 = Some 7.
+Proof. vm_compute. repeat split; reflexivity. Qed.
